@@ -40,7 +40,10 @@ def run(chk: Check):
                 'reopening, in merged stores; inconsistent identifier use; tiny caches.  Non-trivial = a lookup before any '
                 'sync in a store with unsorted identifiers, or in an append session / merged store')
     gen = [{'name': f'gen:{i}', 'ops': su.gen_history(chk.rng, 'C08')} for i in range(chk.n(150, 2000))]
-    su.run_property(chk, 'C08', PROPS, gen, nontrivial)
+    def extra(c, cfg):
+        su.save_then_lookup_scenarios(c, c.rng, c.n(8, 60))
+        su.exception_in_with_block_scenarios(c, c.rng, c.n(8, 60))
+    su.run_property(chk, 'C08', PROPS, gen, nontrivial, extra=extra)
 
 
 def replay(chk: Check, rp):
